@@ -38,6 +38,9 @@ impl Q {
     pub fn frac(n: i64, d: i64) -> Q {
         Q::R(BigRational::new(BigInt::from(n), BigInt::from(d)))
     }
+    pub fn positive_rational(&self) -> bool {
+        matches!(self, Q::R(r) if r.is_positive())
+    }
     pub fn r(&self) -> Option<&BigRational> {
         match self {
             Q::R(r) => Some(r),
